@@ -14,6 +14,7 @@ from pico8 import util
 class MemFS:
     def __init__(self, x, files=None):
         self.files = dict(files or {})     # name -> bytes
+        self.initial = dict(self.files)
         self.opened_for_write = []
         self.opened_for_read = []
         self.messages = []
@@ -69,6 +70,24 @@ class MemFS:
         hx.patch(x, util, 'write', lambda msg: fs.messages.append(msg))
         hx.patch(x, util, 'error', lambda msg: fs.errors.append(msg))
         hx.patch(x, util, 'debug', lambda msg: None)
+
+
+def changed(fs):
+    """Names whose final state differs from the initial one (created,
+    removed or different bytes) - what a user would see after the command;
+    temporary files that are gone again do not count."""
+    out = []
+    for n in sorted(set(fs.files) | set(fs.initial)):
+        a, b = fs.initial.get(n), fs.files.get(n)
+        if a is None or b is None or bytes(a) != bytes(b):
+            out.append(n)
+    return out
+
+
+def only_changed(fs, name):
+    """After a successful command: `name` exists and no other file was
+    created, removed or modified."""
+    return name in fs.files and all(n == name for n in changed(fs))
 
 
 def p8_text(code, version=8, extra=b''):
